@@ -43,6 +43,7 @@ enum Op {
     Tick,
     SetMsg(u64),
     SetLen(u64),
+    SetPrefix(u64),
     Reset,
 }
 
@@ -55,6 +56,7 @@ impl Op {
             Op::Tick => "OTick".into(),
             Op::SetMsg(d) => format!("OSetMsg {d}"),
             Op::SetLen(d) => format!("OSetLen {d}"),
+            Op::SetPrefix(d) => format!("OSetPrefix {d}"),
             Op::Reset => "OReset".into(),
         }
     }
@@ -66,6 +68,7 @@ impl Op {
             Op::Tick => "tick",
             Op::SetMsg(_) => "set_message",
             Op::SetLen(_) => "set_length",
+            Op::SetPrefix(_) => "set_prefix",
             Op::Reset => "reset",
         }
     }
@@ -81,6 +84,7 @@ impl Op {
             Op::Tick => pb.tick(),
             Op::SetMsg(d) => pb.set_message(format!("{d}")),
             Op::SetLen(d) => pb.set_length(*d),
+            Op::SetPrefix(d) => pb.set_prefix(format!("{d}")),
             Op::Reset => pb.reset(),
         }
     }
@@ -117,7 +121,8 @@ struct Case {
     tag: String,
 }
 
-type Row = (u64, u64, u64);
+/// one painted row: position, length, message, prefix (the Coq model keeps the first three)
+type Row = (u64, u64, u64, u64);
 
 #[derive(Clone, Debug)]
 struct Obs {
@@ -130,10 +135,11 @@ fn parse_row(s: &str) -> Option<Row> {
     let a = it.next()?.parse().ok()?;
     let b = it.next()?.parse().ok()?;
     let c = it.next()?.parse().ok()?;
+    let d = it.next()?.parse().ok()?;
     if it.next().is_some() {
         return None;
     }
-    Some((a, b, c))
+    Some((a, b, c, d))
 }
 
 fn interval_ns(rate: u8) -> u64 {
@@ -176,7 +182,7 @@ fn run_impl(c: &Case) -> (Vec<Result<Obs, String>>, Vec<String>) {
     let mut counters = vec![];
     let mut pbs = vec![];
     let mk_style = |cnt: &Counter| {
-        ProgressStyle::with_template("{pos}/{len}/{msg}").unwrap().with_key("c05probe", cnt.clone())
+        ProgressStyle::with_template("{pos}/{len}/{msg}/{prefix}").unwrap().with_key("c05probe", cnt.clone())
     };
     let mut mp = None;
     if c.multi {
@@ -188,7 +194,7 @@ fn run_impl(c: &Case) -> (Vec<Result<Obs, String>>, Vec<String>) {
                 resets: Default::default(),
                 last_now: Default::default(),
             };
-            let pb = ProgressBar::with_draw_target(Some(*len), ProgressDrawTarget::hidden()).with_message("0");
+            let pb = ProgressBar::with_draw_target(Some(*len), ProgressDrawTarget::hidden()).with_message("0").with_prefix("0");
             pb.set_style(mk_style(&cnt));
             let pb = m.add(pb);
             counters.push(cnt);
@@ -203,7 +209,7 @@ fn run_impl(c: &Case) -> (Vec<Result<Obs, String>>, Vec<String>) {
             resets: Default::default(),
             last_now: Default::default(),
         };
-        let pb = ProgressBar::with_draw_target(Some(len), target).with_message("0");
+        let pb = ProgressBar::with_draw_target(Some(len), target).with_message("0").with_prefix("0");
         pb.set_style(mk_style(&cnt));
         counters.push(cnt);
         pbs.push(pb);
@@ -287,7 +293,7 @@ fn oracle(s: &mut Session, c: &Case, obs: &[Result<Obs, String>], problems: &[St
     }
     // own bookkeeping of the live state (wrapping u64 arithmetic), independent of the limiter
     let n = c.bars.len();
-    let mut live: Vec<Row> = c.bars.iter().map(|(_, l)| (0, *l, 0)).collect();
+    let mut live: Vec<Row> = c.bars.iter().map(|(_, l)| (0, *l, 0, 0)).collect();
     let mut shown: Vec<Option<Row>> = vec![None; n];
     // requests that arrived at the draw target: (time, painted)
     let mut reqs: Vec<(u64, bool)> = vec![];
@@ -321,6 +327,7 @@ fn oracle(s: &mut Session, c: &Case, obs: &[Result<Obs, String>], problems: &[St
             Op::SetPos(p) => live[i].0 = *p,
             Op::SetMsg(m) => live[i].2 = *m,
             Op::SetLen(l) => live[i].1 = *l,
+            Op::SetPrefix(p) => live[i].3 = *p,
             Op::Reset => live[i].0 = 0,
             Op::Tick => {}
         }
@@ -416,13 +423,22 @@ fn oracle(s: &mut Session, c: &Case, obs: &[Result<Obs, String>], problems: &[St
                             good[m] = Some(t);
                             continue;
                         }
-                        // the D27 predicate, on this row of this frame
+                        // the D27 predicate, on this row of this frame: length, message and
+                        // prefix must be the LATEST ones (set_length / set_message / set_prefix are
+                        // always draw steps: C02_logic_change, C05_member_refused_update_position_only);
+                        // a stale length / message / prefix is never the known finding
                         let is_d27 = m != i
                             && pos_refused[m]
                             && Some(got[j]) == shown[m]
                             && got[j].1 == live[m].1
                             && got[j].2 == live[m].2
+                            && got[j].3 == live[m].3
                             && got[j].0 != live[m].0;
+                        for (name, g, w) in [("length", got[j].1, live[m].1), ("message", got[j].2, live[m].2), ("prefix", got[j].3, live[m].3)] {
+                            if g != w {
+                                s.count(&format!("stale-field:{name}"));
+                            }
+                        }
                         if is_d27 {
                             stale27[m] = Some(t);
                             s.count("d27:stale-rows");
@@ -597,7 +613,7 @@ fn coq_case(c: &Case, obs: &[Result<Obs, String>]) -> String {
         Ok(ob) => format!(
             "Ok ({}, {})",
             cbool(ob.reached),
-            copt(ob.frame.as_ref().map(|f| clist(f.iter().map(|(a, b, c)| format!("({a}, {b}, {c})")))))
+            copt(ob.frame.as_ref().map(|f| clist(f.iter().map(|(a, b, c, _)| format!("({a}, {b}, {c})")))))
         ),
     }));
     format!("({cfg}, {ops}, {outs})")
@@ -711,7 +727,14 @@ fn gen_op(r: &mut Rng, style: u64) -> Op {
             8..=9 => Op::Dec(d(r)),
             10..=11 => Op::SetPos(d(r)),
             12..=15 => Op::Tick,
-            16..=17 => Op::SetMsg(r.below(1000)),
+            16 => Op::SetMsg(r.below(1000)),
+            17 => {
+                if r.chance(1, 2) {
+                    Op::SetMsg(r.below(1000))
+                } else {
+                    Op::SetPrefix(r.below(1000))
+                }
+            }
             18 => Op::SetLen(d(r)),
             _ => Op::Reset,
         },
@@ -846,7 +869,7 @@ fn corpus() -> Vec<Case> {
         bars: vec![(t0, 7), (t0, 8)],
         ops: (0..21)
             .map(|k| (t0 + k, 1, Op::Tick))
-            .chain([(t0 + 30, 0, Op::SetMsg(5)), (t0 + 40, 0, Op::Inc(2)), (t0 + NS / 2, 1, Op::Tick), (t0 + NS / 2 + 1, 0, Op::Tick)])
+            .chain([(t0 + 30, 0, Op::SetMsg(5)), (t0 + 35, 0, Op::SetPrefix(9)), (t0 + 40, 0, Op::Inc(2)), (t0 + NS / 2, 1, Op::Tick), (t0 + NS / 2 + 1, 0, Op::Tick)])
             .collect(),
         tag: "corpus:multi-first-row-waits-for-a-token".into(),
     });
@@ -958,6 +981,7 @@ fn corpus() -> Vec<Case> {
                 (t0 + 101, 0, Op::SetLen(55)),
                 (t0 + 102, 0, Op::SetPos(9)),
                 (t0 + 103, 0, Op::Inc(3)),
+                (t0 + 104, 0, Op::SetPrefix(42)),
                 (t0 + NS - 1, 0, Op::Tick),
                 (t0 + NS, 0, Op::Tick),
             ])
@@ -967,22 +991,43 @@ fn corpus() -> Vec<Case> {
     v
 }
 
-const QUICK_RATES: [u8; 24] =
-    [1, 2, 3, 6, 7, 9, 15, 16, 19, 20, 21, 30, 50, 60, 64, 100, 120, 127, 128, 144, 200, 250, 254, 255];
+/// quick tier: these fixed rates (every stratum of 32 has at least one) plus, per run, one rate
+/// drawn from each stratum and one more from the whole range (`quick_rates`)
+const QUICK_FIXED_RATES: [u8; 15] = [1, 3, 20, 30, 60, 64, 100, 127, 128, 144, 165, 200, 240, 254, 255];
+
+fn quick_rates(r: &mut Rng) -> Vec<u8> {
+    let mut v = QUICK_FIXED_RATES.to_vec();
+    let mut draw = |lo: u64, hi: u64, v: &mut Vec<u8>| {
+        for _ in 0..64 {
+            let x = r.range(lo, hi) as u8;
+            if !v.contains(&x) {
+                v.push(x);
+                return;
+            }
+        }
+    };
+    for k in 0..8u64 {
+        draw((32 * k).max(1), 32 * k + 31, &mut v);
+    }
+    draw(1, 255, &mut v);
+    v.sort_unstable();
+    v
+}
 
 fn main() {
     let a = args();
     let header = "From IndModel Require Import Base Limiter.\nOpen Scope N_scope.\n";
     let mut s = Session::new(&a, "C05", header, "(syscfg * list (N * N * bop) * list sout)%type", "c05_check");
     s.shard_size = 60;
-    s.rule = "call histories (1..150 calls of tick/inc/dec/set_position/set_message/set_length/reset at chosen mock-clock instants; gaps from the alphabet {0,1ns,I-1,I,I+1,kI-1,kI,kI+1,1h} for I = the refresh interval and I = 1 ms, mixed with random gaps; burst/sustained/drain-refill patterns) on a stand-alone bar over term_like_with_hz(R), an unthrottled term_like target, or 1..3 members of a MultiProgress over term_like_with_hz(R); observed per call: tracker tick notification (position limiter verdict) and flush + painted rows (target limiter verdict, frame content); non-trivial = at least one painted and one skipped call; distinct = distinct case text".into();
+    s.rule = "call histories (1..150 calls of tick/inc/dec/set_position/set_message/set_length/set_prefix/reset at chosen mock-clock instants; gaps from the alphabet {0,1ns,I-1,I,I+1,kI-1,kI,kI+1,1h} for I = the refresh interval and I = 1 ms, mixed with random gaps; burst/sustained/drain-refill patterns) on a stand-alone bar over term_like_with_hz(R) (quick: 24 refresh rates per run = 15 fixed awkward ones + one drawn from each of the 8 strata 1-31, 32-63, .., 224-255 + one more, all from the seed; thorough/extended: every R in 1..=255), an unthrottled term_like target, or 1..3 members of a MultiProgress over term_like_with_hz(R); observed per call: tracker tick notification (position limiter verdict) and flush + painted rows pos/len/msg/prefix (target limiter verdict, frame content); non-trivial = at least one painted and one skipped call; distinct = distinct case text".into();
     let mut r = Rng::new(a.seed);
     let mut d27_reported = 0u64;
     for c in corpus() {
         run_case(&mut s, &c, &mut d27_reported);
     }
     let per_rate: usize = if a.thorough { 14 } else if a.extended { 40 } else { 16 };
-    let rates: Vec<u8> = if a.thorough || a.extended { (1..=255).collect() } else { QUICK_RATES.to_vec() };
+    let rates: Vec<u8> = if a.thorough || a.extended { (1..=255).collect() } else { quick_rates(&mut r) };
+    s.notes.push(format!("refresh rates of this run ({}): {:?}; histogram per stratum of 32: input_distribution keys rate:*", rates.len(), rates));
     for &rate in &rates {
         for k in 0..per_rate {
             let multi = k % 4 == 3;
